@@ -302,7 +302,7 @@ func ownProposal(w *World, h uint32, v byte) (*Payload, bool) {
 func (w *World) e2Enabled() []Event {
 	sc, sp := w.sc, w.sc.E2
 	x := w.e2X()
-	if x.height >= sc.target() || w.steps >= sc.MaxDepth {
+	if x.height >= sc.target() || w.steps >= sc.MaxDepth || x.crashed {
 		return nil
 	}
 	var evs []Event
